@@ -129,7 +129,8 @@ Lemma A_call blk : A_blk blk -> forall w e v w' e' o, call_with blk w e v = (w',
      (w_nsw w' = w_nsw w -> e' = e)).
 Proof.
   intros Hb w e v w' e' o H. unfold call_with in H.
-  destruct v as [| | |c f gl body|]; try (inversion H; subst; split; [lia|]; intros _; split; [intros; discriminate|reflexivity]).
+  destruct v as [| | |c f gl body| |]; try (inversion H; subst; split; [lia|]; intros _; split; [intros; discriminate|reflexivity]).
+  destruct (needs_arg f); [inversion H; subst; split; [lia|]; intros _; split; [intros; reflexivity|reflexivity]|].
   set (fi := {| fi_gl := gl; fi_ln := local_names gl body |}) in *.
   destruct (blk w (enter_call e c fi) body) as [[w1 e1] o1] eqn:B.
   destruct (Hb _ _ _ _ _ _ B) as (M & K).
@@ -150,7 +151,8 @@ Lemma A_call_coherent blk : A_blk blk -> forall w e v w' e' o, call_with blk w e
   o <> OFuel -> coherent e -> coherent e'.
 Proof.
   intros Hb w e v w' e' o H NF Co. unfold call_with in H.
-  destruct v as [| | |c f gl body|]; try (inversion H; subst; exact Co).
+  destruct v as [| | |c f gl body| |]; try (inversion H; subst; exact Co).
+  destruct (needs_arg f); [inversion H; subst; exact Co|].
   set (fi := {| fi_gl := gl; fi_ln := local_names gl body |}) in *.
   destruct (blk w (enter_call e c fi) body) as [[w1 e1] o1] eqn:B.
   destruct (Hb _ _ _ _ _ _ B) as (M & K).
@@ -208,7 +210,7 @@ Proof.
     split; [lia|]. auto.
   - (* SAttrAssign *)
     destruct (eval_expr w e e0) as [v|]; [|inversion H; subst; split; [lia|auto using ptrs_eq_refl]].
-    destruct (lookup_name w e m) as [[| | | |c]|]; inversion H; subst; (split; [cbn; lia|auto using ptrs_eq_refl]).
+    destruct (lookup_name w e m) as [[| | | |c|]|]; inversion H; subst; (split; [cbn; lia|auto using ptrs_eq_refl]).
   - (* SDef *)
     destruct (assign_name w e f (VFun (e_gctx e) f gl body)) as [w1 e1] eqn:As. inversion H; subst.
     pose proof (assign_ptrs w e f (VFun (e_gctx e) f gl body)) as [P C].
@@ -277,6 +279,8 @@ Proof.
     destruct (pget (w_mgr w) c) as [c0|]; inversion H; subst.
     + split; [cbn; lia|]. intros _. split; [intros; apply set_global_ctx_coherent|]. cbn. intros EQ. lia.
     + split; [lia|auto using ptrs_eq_refl].
+  - (* SCallBad *)
+    inversion H; subst; (split; [lia|auto using ptrs_eq_refl]).
 Qed.
 
 Lemma A_exec cfg fuel : A_ok (exec cfg fuel).
@@ -314,7 +318,8 @@ Inductive pure : stmt -> Prop :=
   | P_return e : pure (SReturn e)
   | P_raise : pure SRaise
   | P_if e a b : Forall pure a -> Forall pure b -> pure (SIf e a b)
-  | P_try a h : Forall pure a -> Forall pure h -> pure (STry a h).
+  | P_try a h : Forall pure a -> Forall pure h -> pure (STry a h)
+  | P_callbad c : pure (SCallBad c).
 
 (* values that belong to context a: plain data and functions defined in a whose bodies are pure *)
 Definition closedv (a : nat) (v : val) : Prop :=
@@ -424,8 +429,9 @@ Lemma B_call ex : A_ok ex -> B_ok ex -> forall a w e v, closedt a (tab w a) -> i
   B_res a w e (call_with (block_with ex) w e v).
 Proof.
   intros HA HB a w e v Ht Hi Hv. unfold call_with.
-  destruct v as [| | |c f gl body|]; try (cbn; split; [apply frame_refl; assumption|auto]).
+  destruct v as [| | |c f gl body| |]; try (cbn; split; [apply frame_refl; assumption|auto]).
   destruct Hv as (-> & Hp).
+  destruct (needs_arg f); [cbn; split; [apply frame_refl; assumption|auto]|].
   set (fi := {| fi_gl := gl; fi_ln := local_names gl body |}).
   assert (Hin : in_ctx a (enter_call e a fi)).
   { destruct Hi as (Hg & Hc & Hs). unfold enter_call. rewrite Hc, Nat.eqb_refl. unfold in_ctx; cbn. repeat split; auto. apply closedt_nil. }
@@ -490,6 +496,8 @@ Proof.
     destruct (K1 ltac:(discriminate)) as (I1 & _).
     pose proof (Hb a w1 e1 h (proj1 (proj2 F1)) I1 H0) as H2. destruct (block_with ex w1 e1 h) as [[w2 e2] o2]. cbn in *.
     destruct H2 as (F2 & K2). split; [eapply frame_trans; eauto|exact K2].
+  - (* SCallBad *)
+    cbn; split; [apply frame_refl; assumption|auto].
 Qed.
 
 Lemma B_exec cfg fuel : B_ok (exec cfg fuel).
@@ -766,7 +774,8 @@ Qed.
 Lemma D_call blk : D_blk blk -> forall w e v w' e' o, call_with blk w e v = (w', e', o) -> ext w w'.
 Proof.
   intros Hb w e v w' e' o H. unfold call_with in H.
-  destruct v as [| | |c f gl body|]; try (inversion H; subst; apply ext_refl).
+  destruct v as [| | |c f gl body| |]; try (inversion H; subst; apply ext_refl).
+  destruct (needs_arg f); [inversion H; subst; apply ext_refl|].
   match type of H with context [blk ?W ?E body] => destruct (blk W E body) as [[w1 e1] o1] eqn:B end.
   pose proof (Hb _ _ _ _ _ _ B) as X. destruct o1; inversion H; subst; exact X.
 Qed.
@@ -954,7 +963,7 @@ Proof.
   - destruct (eval_expr w e e0) as [v|]; [|inversion H; subst; apply ext_refl].
     pose proof (view_assign w e x v) as V. destruct (assign_name w e x v) as [w1 e1]. inversion H; subst. apply ext_view; exact V.
   - destruct (eval_expr w e e0) as [v|]; [|inversion H; subst; apply ext_refl].
-    destruct (lookup_name w e m) as [[| | | |c]|]; inversion H; subst; try apply ext_refl. apply ext_view, view_set_tab.
+    destruct (lookup_name w e m) as [[| | | |c|]|]; inversion H; subst; try apply ext_refl. apply ext_view, view_set_tab.
   - pose proof (view_assign w e f (VFun (e_gctx e) f gl body)) as V.
     destruct (assign_name w e f (VFun (e_gctx e) f gl body)) as [w1 e1]. inversion H; subst. apply ext_view; exact V.
   - destruct (resolve_cref w e c) as [fv|]; [|inversion H; subst; apply ext_refl].
@@ -990,6 +999,7 @@ Proof.
     + inversion H; subst; exact X1.
   - eapply D_import_dots; eauto.
   - destruct (pget (w_mgr w) c); inversion H; subst; [apply ext_view, view_bump|apply ext_refl].
+  - inversion H; subst; apply ext_refl.
 Qed.
 
 Lemma D_exec cfg fuel : D_ok (exec cfg fuel).
@@ -1038,7 +1048,7 @@ Proof.
     destruct R1 as (R1 & R2). split; [exact R1|]. intros Hc Hj. apply J_set_top; [exact HT|]. apply R2; assumption.
   - destruct (pget (w_mgr w) n) as [c|]; [|inversion H; subst; split; auto].
     destruct (tget (tab w c) f) as [v|]; [|inversion H; subst; split; auto].
-    destruct v as [| | |c' f' gl body|]; try (inversion H; subst; split; auto; fail).
+    destruct v as [| | |c' f' gl body| |]; try (inversion H; subst; split; auto; fail).
     destruct (call_fun cfg fuel w (fresh_ev c') (VFun c' f' gl body)) as [[w1 e1] o1] eqn:Cl.
     inversion H; subst. apply top_of_ext. eapply D_call; [apply D_block, D_exec|exact Cl].
 Qed.
